@@ -3,3 +3,7 @@
 pub const fn vassert(b: bool) requires b {}
 #[verifier::external_body]
 pub fn vpanic() -> ! requires false { panic!() }
+// For functions the property allows to panic ("the constructor either panics or ..."): an assert! is a run-time check;
+// if it returns the condition holds.
+#[verifier::external_body]
+pub fn vcheck(b: bool) ensures b { assert!(b) }
